@@ -1,7 +1,7 @@
 """C05 - no input data and no parsable expression can make jawk panic or hang"""
 from ..scen_parser import tokenizer, selfcheck
 from ..scen_kernels import kernels
-from ..scen_expr import truncation
+from ..scen_expr import truncation, expr_nopanic
 from ..scen_readinput import read_input
 
 
@@ -16,3 +16,4 @@ def run(ctx):
     read_input(ctx, ['read.nopanic'])
     kernels(ctx)
     truncation(ctx)
+    expr_nopanic(ctx)
